@@ -3,49 +3,69 @@
      R|N: registers on / off.   F|P: repaired code / pinned code (no constant test on the register paths, containers written in place)
      names: n1,n2,...  the names whose top-level value is reported after every event
      event ::= <scope>:<attempt>      scope ::= T (top level) | F (inside func(){..}()) | G (two functions deep) | L (inside for 2 {..})
-     attempt ::= AS,<name>,<val>,<0|1 define> | IN,<name>,<delta>,<0|1 prefix> | IX,<name>,<i>,<pval> | DE,<name>,<k> | DL,<name>
-               | FI,<name>,<a>,<b> | FL,<name>,<count>.<pval>... | CL,<name>,<val> | RD,<name>
-     val  ::= pval | s<hex> | b0 | b1 | f<q>           (f<q>: the float q/4)
-     pval ::= i<int> | n | a<count>.<pval>... | m<count>.<key>.<pval>...      tokens separated by '.'
-   out :  <id> C:<name>=<0|1>,... | <obs> | <obs> ...     obs ::= (ok=<render> | err) <name>=<render or -> ...  *)
+     attempt ::= AS,<name>,<expr>,<0|1 define> | IN,<name>,<delta>,<0|1 prefix> | IX,<name>,<key>,<val> | DE,<name>,<key> | DL,<name>
+               | FI,<name>,<a>,<b> | FL,<name>,<count>.<val>... | CL,<name>,<val> | RD,<name>
+     expr ::= <val> | N:<y> (y) | S:<y>:<l>:<r> (y[l:r]) | W:<y> ([y]) | X:<y>:<key> (y[key]) | R:<y> (func(){y}())
+            | P:<y>:<val> (y+[val]) | C:<y>:<key>:<val> (func(pp){pp[key]=val;pp}(y))
+     val  ::= i<int> | f<q> (the float q/4) | z (-0.0) | n | s<hex> | b0 | b1 | a<count>.<val>... | m<count>.<key>.<val>...
+     key  ::= i<int> | f<q> | z | s<hex>                                        tokens separated by '.'
+   out :  <id> C:<name>=<0|1>,... | <obs> | <obs> ...     obs ::= (ok=<Inspect rendering> | err) <name>=<exact rendering or -> ...
+          (the exact rendering writes every float with a fraction: 1.0, -0.0) *)
 let tokens s = String.split_on_char '.' s
-let rec parse_pval (ts : string list) : pval * string list =
+let tail s = String.sub s 1 (String.length s - 1)
+let parse_num (t : string) : num =
+  match t.[0] with
+  | 'i' -> NInt (z_of_string (tail t))
+  | 'f' -> NFlt (z_of_string (tail t))
+  | 'z' -> NNegZero
+  | _ -> failwith ("bad number token " ^ t)
+let parse_key_tok (t : string) : key =
+  if t.[0] = 's' then KStr (bytes_of_hex (tail t)) else KNum (parse_num t)
+let rec parse_val (ts : string list) : cval * string list =
   match ts with
-  | [] -> failwith "pval: no token"
+  | [] -> failwith "value: no token"
   | t :: rest ->
-    let arg = String.sub t 1 (String.length t - 1) in
     (match t.[0] with
-     | 'i' -> (PInt (z_of_string arg), rest)
-     | 'n' -> (PNil, rest)
-     | 'a' -> let n = int_of_string arg in
-       let rec go k ts acc = if k = 0 then (List.rev acc, ts) else let (v, ts') = parse_pval ts in go (k - 1) ts' (v :: acc) in
-       let (l, rest') = go n rest [] in (PArr l, rest')
-     | 'm' -> let n = int_of_string arg in
+     | 'i' | 'f' | 'z' -> (XNum (parse_num t), rest)
+     | 'n' -> (XNil, rest)
+     | 's' -> (XStr (bytes_of_hex (tail t)), rest)
+     | 'b' -> (XBool (tail t = "1"), rest)
+     | 'a' -> let n = int_of_string (tail t) in
+       let rec go k ts acc = if k = 0 then (List.rev acc, ts) else let (v, ts') = parse_val ts in go (k - 1) ts' (v :: acc) in
+       let (l, rest') = go n rest [] in (XArr l, rest')
+     | 'm' -> let n = int_of_string (tail t) in
        let rec go k ts acc = if k = 0 then (List.rev acc, ts) else
          (match ts with
-          | kt :: ts1 -> let (v, ts') = parse_pval ts1 in go (k - 1) ts' ((z_of_string kt, v) :: acc)
+          | kt :: ts1 -> let (v, ts') = parse_val ts1 in go (k - 1) ts' ((parse_key_tok kt, v) :: acc)
           | [] -> failwith "map: no key") in
-       let (l, rest') = go n rest [] in (PMap l, rest')
-     | _ -> failwith ("bad pval token " ^ t))
-let parse_cval (s : string) : cval =
-  let arg () = String.sub s 1 (String.length s - 1) in
-  match s.[0] with
-  | 's' -> CStr (bytes_of_hex (arg ()))
-  | 'b' -> CBool (arg () = "1")
-  | 'f' -> CFlt (z_of_string (arg ()))
-  | _ -> CV (fst (parse_pval (tokens s)))
+       let (l, rest') = go n rest [] in (XMap l, rest')
+     | _ -> failwith ("bad value token " ^ t))
+let parse_cval (s : string) : cval = fst (parse_val (tokens s))
 let name_of s = List.init (String.length s) (fun i -> n_of_int (Char.code s.[i]))
+(* expr ::= <val> | N:<y> | S:<y>:<l>:<r> | W:<y> | X:<y>:<key> | R:<y> | P:<y>:<val> | C:<y>:<key>:<val> *)
+let parse_expr (s : string) : expr =
+  if String.length s > 1 && s.[1] = ':' then
+    (match String.split_on_char ':' s with
+     | ["N"; y] -> EName (name_of y)
+     | ["S"; y; l; r] -> ESlice (name_of y, z_of_string l, z_of_string r)
+     | ["W"; y] -> EWrap (name_of y)
+     | ["X"; y; k] -> EIndex (name_of y, parse_key_tok k)
+     | ["R"; y] -> ERet (name_of y)
+     | ["P"; y; v] -> EAppend (name_of y, parse_cval v)
+     | ["C"; y; k; v] -> ECallSet (name_of y, parse_key_tok k, parse_cval v)
+     | _ -> failwith ("bad expr " ^ s))
+  else ELit (parse_cval s)
 let parse_attempt s =
   match String.split_on_char ',' s with
-  | ["AS"; n; v; d] -> AAssign (name_of n, parse_cval v, d = "1")
+  | ["AS"; n; ex; d] -> AAssign (name_of n, parse_expr ex, d = "1")
   | ["IN"; n; d; p] -> AIncr (name_of n, z_of_string d, p = "1")
-  | ["IX"; n; i; v] -> AIdxSet (name_of n, z_of_string i, fst (parse_pval (tokens v)))
-  | ["DE"; n; k] -> ADelElem (name_of n, z_of_string k)
+  | ["IX"; n; k; v] -> AIdxSet (name_of n, parse_key_tok k, parse_cval v)
+  | ["DE"; n; k] -> ADelElem (name_of n, parse_key_tok k)
   | ["DL"; n] -> ADelete (name_of n)
   | ["FI"; n; a; b] -> AForInt (name_of n, z_of_string a, z_of_string b)
   | ["FL"; n; l] ->
     (match tokens l with
-     | c :: ts -> let rec go k ts acc = if k = 0 then List.rev acc else let (v, ts') = parse_pval ts in go (k - 1) ts' (v :: acc) in
+     | c :: ts -> let rec go k ts acc = if k = 0 then List.rev acc else let (v, ts') = parse_val ts in go (k - 1) ts' (v :: acc) in
        AForList (name_of n, go (int_of_string c) ts [])
      | [] -> failwith "FL")
   | ["CL"; n; v] -> ACall (name_of n, parse_cval v)
@@ -55,24 +75,28 @@ let parse_event s =
   let sc = (match s.[0] with 'T' -> STop | 'F' -> SFn | 'G' -> SFn2 | 'L' -> SLoop | _ -> failwith "scope") in
   Ev (sc, parse_attempt (String.sub s 2 (String.length s - 2)))
 
-let rec render_p (p : pval) : string =
-  match p with
-  | PInt z -> string_of_z z
-  | PNil -> "nil"
-  | PArr l -> "[" ^ String.concat "," (List.map render_p l) ^ "]"
-  | PMap l -> "{" ^ String.concat "," (List.map (fun (k, x) -> string_of_z k ^ ":" ^ render_p x) l) ^ "}"
-let render_flt (q : z) : string =
-  let q = int_of_z q in
+(* two renderings: [exact = false] is Inspect (1.0 prints as 1); [exact = true] keeps every float apart from
+   the integer of the same value (1.0, -0.0): what the bindings are compared with *)
+let render_flt exact (q : int) : string =
   let sign = if q < 0 then "-" else "" in
   let a = abs q in
   let ip = a / 4 and fp = a mod 4 in
-  sign ^ string_of_int ip ^ (match fp with 0 -> "" | 1 -> ".25" | 2 -> ".5" | _ -> ".75")
-let render (v : cval) : string =
+  sign ^ string_of_int ip ^ (match fp with 0 -> if exact then ".0" else "" | 1 -> ".25" | 2 -> ".5" | _ -> ".75")
+let render_num exact (n : num) : string =
+  match n with
+  | NInt z -> string_of_z z
+  | NFlt q -> render_flt exact (int_of_z q)
+  | NNegZero -> if exact then "-0.0" else "-0"
+let render_str s = "\"" ^ String.concat "" (List.map (fun b -> String.make 1 (Char.chr (int_of_n b))) s) ^ "\""
+let render_key exact (k : key) = match k with KNum n -> render_num exact n | KStr s -> render_str s
+let rec render exact (v : cval) : string =
   match v with
-  | CV p -> render_p p
-  | CStr s -> "\"" ^ String.concat "" (List.map (fun b -> String.make 1 (Char.chr (int_of_n b))) s) ^ "\""
-  | CBool b -> string_of_bool b
-  | CFlt q -> render_flt q
+  | XNum n -> render_num exact n
+  | XNil -> "nil"
+  | XStr s -> render_str s
+  | XBool b -> string_of_bool b
+  | XArr l -> "[" ^ String.concat "," (List.map (render exact) l) ^ "]"
+  | XMap l -> "{" ^ String.concat "," (List.map (fun (k, x) -> render_key exact k ^ ":" ^ render exact x) l) ^ "}"
 
 let () = iter_lines (fun line ->
   match split_on ' ' line with
@@ -87,11 +111,11 @@ let () = iter_lines (fun line ->
       let (e', res) = run_event cfg !env (parse_event ev) in
       env := e';
       let head = (match res with
-        | Ok v -> "ok=" ^ render v
+        | Ok v -> "ok=" ^ render false v
         | Err -> "err"
         | Dom -> dom := true; "dom"
         | Stuck -> "STUCK") in
-      let bs = List.map (fun n -> n ^ "=" ^ (match root_value e' (name_of n) with Some v -> render v | None -> "-")) names in
+      let bs = List.map (fun n -> n ^ "=" ^ (match root_value e' (name_of n) with Some v -> render true v | None -> "-")) names in
       String.concat " " (head :: bs)) (String.split_on_char ';' evs) in
     if !dom then print_endline (id ^ " SKIP dom") else print_endline (id ^ " " ^ String.concat " | " (hdr :: outs))
   | _ -> ())
